@@ -15,7 +15,7 @@ import time
 
 VERIF = os.path.dirname(os.path.dirname(os.path.abspath(__file__)))
 REPO = os.environ.get('VERIF_REPO', '/repo')
-WORK = os.path.join(VERIF, '.cache', 'kx-work')
+WORK = os.path.join(VERIF, '.cache', 'kx-work' + os.environ.get('VERIF_WORK_SUFFIX', ''))
 TARGET = os.path.join(VERIF, '.cache', 'kx-target')
 LOCK = os.path.join(VERIF, '.cache', 'kx.lock')
 
